@@ -20,7 +20,7 @@ impl Property for C02 {
         "C02"
     }
     fn rule(&self) -> String {
-        "programs of the core fragment (half of them in balanced form: last output = inputs + mint - burn - other outputs - fees) with integer arguments from a boundary distribution {0, +-1, 23/24, 255/256, 2^16, +-2^31, 2^32, +-2^63, +-2^64, i128 extremes, each +-2} and UTxOs that may hold less than the template spends; oracle: if the pipeline returns Ok then every numeric field of the exact (BigInt) denotation fits its ledger field and equals the decoded number, and for balanced templates consumed = produced + fee per asset class on the decoded transaction; a world in which a list index falls outside 0..len (negative, >= len, beyond 64 bits) has no denotation and has to be refused (an Ok there is `silent:index-out-of-range`); likewise a world that gives two withdrawal blocks one reward account (`silent:withdrawal-dropped`: the ledger map keeps one amount per account). Non-trivial: the denotation is defined and either out of range or has >= 2 numeric fields; distinct = distinct (source, args).".into()
+        "programs of the core fragment (half of them in balanced form: last output = inputs + mint - burn - other outputs - fees) with integer arguments from a boundary distribution {0, +-1, 23/24, 255/256, 2^16, +-2^31, 2^32, +-2^63, +-2^64, i128 extremes, each +-2} and UTxOs that may hold less than the template spends; oracle: if the pipeline returns Ok then every numeric field of the exact (BigInt) denotation fits its ledger field and equals the decoded number, and for balanced templates consumed = produced + fee per asset class on the decoded transaction; a world in which a list index falls outside 0..len (negative, >= len, beyond 64 bits) has no denotation and has to be refused (an Ok there is `silent:index-out-of-range`; judged on programs without a spread only, a spread operand's unused fields are legitimately not evaluated); likewise a world that gives two withdrawal blocks one reward account (`silent:withdrawal-dropped`: the ledger map keeps one amount per account). Non-trivial: the denotation is defined and either out of range or has >= 2 numeric fields; distinct = distinct (source, args).".into()
     }
     fn assumptions(&self) -> Vec<String> {
         vec![
@@ -75,7 +75,13 @@ impl Property for C02 {
                                 ),
                             }
                         }
-                        if why == "index out of range" {
+                        // (the reference evaluates a spread operand in full, the pipeline only the fields the
+                        // constructor does not give itself: an out-of-range index inside an unused field of a spread
+                        // operand is legitimately never evaluated, so programs with a spread are not judged here)
+                        if why == "index out of range" && src.contains("...") {
+                            ctx.count("index/out-of-range-world-not-judged(spread)");
+                        }
+                        if why == "index out of range" && !src.contains("...") {
                             ctx.eval();
                             ctx.count("index/out-of-range-world");
                             match back_assigned(&tir, &w, &PP::default()) {
